@@ -551,12 +551,21 @@ def check_set_order(ctx: Ctx):
         ctx.ok("R19.8", None, None, "serialisable-classes:set-order", f"{n} constructors / _yaml_repr methods inspected: no sequence setting is ordered by set iteration", None, nontrivial=False)
 
 
+def _run_rule(ctx, name, fn):
+    """a sub-rule that cannot be evaluated is recorded as undecided; the remaining rules still run"""
+    try:
+        return fn(ctx)
+    except (Undecided, AnchorMissing) as e:
+        ctx.undecided(name, None, None, f"{name}:analysis", f"{type(e).__name__}: {e}")
+        return 0
+
+
 def check(ctx: Ctx):
-    check_set_order(ctx)
-    check_roundtrip(ctx)
-    check_enums(ctx)
-    check_shipped(ctx)
-    check_defaults_untouched(ctx)
+    _run_rule(ctx, "check_set_order", check_set_order)
+    _run_rule(ctx, "check_roundtrip", check_roundtrip)
+    _run_rule(ctx, "check_enums", check_enums)
+    _run_rule(ctx, "check_shipped", check_shipped)
+    _run_rule(ctx, "check_defaults_untouched", check_defaults_untouched)
     for fn, rule in ((check_yaml_dialect, "R19.6"), (check_config_names, "R19.7")):
         try:
             fn(ctx)
@@ -566,7 +575,7 @@ def check(ctx: Ctx):
     # the one it was loaded from): configuration objects write their attributes only in __init__
     from . import c15
 
-    c15.check_state_writers(ctx)
+    _run_rule(ctx, "check_state_writers", c15.check_state_writers)
 
 
 _E = "panoptica/panoptica_evaluator.py"
